@@ -10,6 +10,8 @@
 package main
 
 import (
+	"encoding/base64"
+	"net/url"
 	"errors"
 	"bytes"
 	"crypto/sha256"
@@ -938,6 +940,22 @@ func (r *runner) run(dir string) scenResult {
 		case "fsizeunlimit":
 			syscall.Setrlimit(syscall.RLIMIT_FSIZE, &r.oldFsize)
 			atomic.StoreInt32(&ioFaultWindow, 0)
+		case "hangup": // s.N web clients send a login and close their connection 300 ms later, without waiting for the answer
+			hu, _ := url.Parse(r.fe.httpURL)
+			for i := 0; i < s.N; i++ {
+				conn, err := net.Dial("tcp", hu.Host)
+				if err != nil {
+					continue
+				}
+				cred := base64.StdEncoding.EncodeToString([]byte(s.U + ":" + r.sc.Passwords[s.P]))
+				if i%2 == 0 {
+					fmt.Fprintf(conn, "GET /basic-auth HTTP/1.1\r\nHost: agent\r\nAuthorization: Basic %s\r\n\r\n", cred)
+				} else {
+					body, _ := json.Marshal(map[string]string{"username": s.U, "password": r.sc.Passwords[s.P]})
+					fmt.Fprintf(conn, "POST /api/authenticate HTTP/1.1\r\nHost: agent\r\nContent-Type: application/json\r\nContent-Length: %d\r\n\r\n%s", len(body), body)
+				}
+				go func(c net.Conn) { time.Sleep(300 * time.Millisecond); c.Close() }(conn)
+			}
 		case "chmodhooks": // the hooks directory becomes unusable (world-writable) / usable again
 			os.Chmod(sc.HooksDir, os.FileMode(s.N))
 		case "fixtmp":
